@@ -1,5 +1,5 @@
 (* C06 tables: properties of the class / type mnemonic tables checked for all
-   65536 values (kept in a file of its own: about 45 s of vm_compute). *)
+   65536 values (values with a mnemonic by enumeration of the table, all others symbolically). *)
 From Coq Require Import NArith ZArith List Bool Lia ZifyN ZifyBool ZifyNat.
 From DV Require Import Base.Outcome Base.Bytes C06.Gen C06.Model C06.Proofs.
 Import ListNotations.
@@ -89,9 +89,100 @@ Definition class_ok (c : N) : bool :=
 Definition rtype_ok (t : N) : bool :=
   let s := show_rtype t in plain_word s && opt_is (parse_rtype s) t.
 
+Lemma parse_show_dec max n : n <= max -> parse_uint_str max (show_dec n) = Some n.
+Proof.
+  intros H. unfold parse_uint_str.
+  pose proof (show_dec_digits n) as D. pose proof (show_dec_nonempty n) as NE. pose proof (show_dec_value n) as V.
+  destruct (show_dec n) as [|c t] eqn:E; [congruence|].
+  assert (C : c <> 43). { cbn [all_digits] in D. apply andb_true_iff in D as [D _]. unfold is_digit in D. lia. }
+  assert (M : forall (A : Type) (x y : A), match c with 43 => x | _ => y end = y).
+  { intros A x y. destruct c as [|p]; [reflexivity|]. repeat (destruct p as [p|p|]; try reflexivity). congruence. }
+  rewrite M, D, V. destruct (n <=? max) eqn:E2; [reflexivity|lia].
+Qed.
+
+
+(* ---- values without a mnemonic: the text is prefix ++ decimal; handled symbolically *)
+
+Lemma eq_nocase_app a : forall m b, eq_nocase m (a ++ b) = true ->
+  eq_nocase (firstn (length a) m) a = true /\ eq_nocase (skipn (length a) m) b = true.
+Proof.
+  induction a as [|x a IH]; intros m b H.
+  - cbn. split; [reflexivity | exact H].
+  - destruct m as [|y m]; [discriminate|]. cbn [app eq_nocase] in H.
+    destruct (upper y =? upper x) eqn:E; [|discriminate].
+    destruct (IH m b H) as [H1 H2]. cbn [length firstn skipn eq_nocase]. rewrite E. split; assumption.
+Qed.
+
+Lemma eq_nocase_digits x : forall ds, eq_nocase x ds = true -> all_digits ds = true -> all_digits x = true.
+Proof.
+  induction x as [|c x IH]; intros [|d ds] H D; try discriminate; [reflexivity|].
+  cbn [eq_nocase] in H. destruct (upper c =? upper d) eqn:E; [|discriminate].
+  cbn [all_digits] in *. apply andb_true_iff in D as [D1 D2]. rewrite (IH ds H D2), andb_true_r.
+  unfold upper, is_digit in *. destruct ((97 <=? c) && (c <=? 122)) eqn:E1; destruct ((97 <=? d) && (d <=? 122)) eqn:E2; lia.
+Qed.
+
+Definition tbl_free (pre : text) (tbl : list (N * text)) : bool :=
+  forallb (fun e => negb (eq_nocase (firstn (length pre) (snd e)) pre && all_digits (skipn (length pre) (snd e)))) tbl.
+
+Lemma no_mnemonic pre ds tbl : tbl_free pre tbl = true -> all_digits ds = true ->
+  find_mnemonic tbl (pre ++ ds) = None.
+Proof.
+  intros F D. induction tbl as [|[v m] tbl IH]; [reflexivity|].
+  cbn [tbl_free forallb snd] in F. apply andb_true_iff in F as [F1 F2]. cbn [find_mnemonic].
+  destruct (eq_nocase m (pre ++ ds)) eqn:E; [|apply IH, F2].
+  destruct (eq_nocase_app pre m ds E) as [E1 E2]. rewrite E1 in F1.
+  rewrite (eq_nocase_digits _ _ E2 D) in F1. discriminate.
+Qed.
+
+Lemma find_value_in tbl v m : find_value tbl v = Some m -> In v (map fst tbl).
+Proof.
+  induction tbl as [|[x y] tbl IH]; [discriminate|]. cbn [find_value map fst].
+  destruct (x =? v) eqn:E; [intros _; left; apply N.eqb_eq, E | intros H; right; apply IH, H].
+Qed.
+
+Lemma prefixed_plain pre v : forallb plain_char pre = true -> plain_word (pre ++ show_dec v) = true.
+Proof.
+  intros P. unfold plain_word. rewrite forallb_app, P, (digits_plain _ (show_dec_digits v)).
+  pose proof (show_dec_nonempty v). destruct pre; [destruct (show_dec v); [congruence|reflexivity] | reflexivity].
+Qed.
+
+Lemma prefixed_parse tbl pre v : tbl_free pre tbl = true -> eq_nocase pre pre = true -> v <= 65535 ->
+  parse_prefixed tbl pre (pre ++ show_dec v) = Some v.
+Proof.
+  intros F E V. unfold parse_prefixed. rewrite no_mnemonic by (exact F || apply show_dec_digits).
+  rewrite firstn_app, Nat.sub_diag, firstn_all, skipn_app, Nat.sub_diag, skipn_all. cbn [firstn skipn app].
+  rewrite app_nil_r, E. rewrite app_length.
+  pose proof (show_dec_nonempty v) as NE.
+  assert (L : Nat.ltb (length pre) (length pre + length (show_dec v)) = true).
+  { apply Nat.ltb_lt. destruct (show_dec v); [congruence|cbn [length]; lia]. }
+  rewrite L. cbn [andb]. apply parse_show_dec, V.
+Qed.
+
 Lemma class_table : forall c, c < 65536 -> class_ok c = true.
-Proof. apply all_below_spec. vm_compute. reflexivity. Qed.
+Proof.
+  intros c Hc. unfold class_ok. cbv zeta. unfold show_class, show_prefixed.
+  destruct (find_value class_mnemonics c) as [m|] eqn:F.
+  - (* the finitely many values with a mnemonic *)
+    assert (A : forallb class_ok (map fst class_mnemonics) = true) by (vm_compute; reflexivity).
+    rewrite forallb_forall in A. specialize (A c (find_value_in _ _ _ F)).
+    unfold class_ok in A. cbv zeta in A. unfold show_class, show_prefixed in A. rewrite F in A. exact A.
+  - rewrite prefixed_plain by reflexivity.
+    unfold parse_class. rewrite prefixed_parse by (reflexivity || lia).
+    unfold parse_rtype, parse_prefixed.
+    rewrite (no_mnemonic class_prefix (show_dec c) rtype_mnemonics) by (vm_compute; reflexivity) || apply show_dec_digits.
+    unfold class_prefix, rtype_prefix. cbn [length app firstn].
+    replace (eq_nocase [67; 76; 65; 83] [84; 89; 80; 69]) with false by reflexivity.
+    rewrite andb_false_r. cbn [opt_none opt_is andb]. apply N.eqb_refl.
+Qed.
 
 Lemma rtype_table : forall t, t < 65536 -> rtype_ok t = true.
-Proof. apply all_below_spec. vm_compute. reflexivity. Qed.
-
+Proof.
+  intros c Hc. unfold rtype_ok. cbv zeta. unfold show_rtype, show_prefixed.
+  destruct (find_value rtype_mnemonics c) as [m|] eqn:F.
+  - assert (A : forallb rtype_ok (map fst rtype_mnemonics) = true) by (vm_compute; reflexivity).
+    rewrite forallb_forall in A. specialize (A c (find_value_in _ _ _ F)).
+    unfold rtype_ok in A. cbv zeta in A. unfold show_rtype, show_prefixed in A. rewrite F in A. exact A.
+  - rewrite prefixed_plain by reflexivity.
+    unfold parse_rtype. rewrite prefixed_parse by (reflexivity || lia).
+    cbn [opt_is andb]. apply N.eqb_refl.
+Qed.
